@@ -137,3 +137,46 @@ package keeper
 //@ loop 2 invariant [collected_addresses_are_visited_keys] forall j in [0, len(sortedReporters)) :: seen(sortedReporters[j].address)
 //@ loop 2 invariant [collected_addresses_are_distinct] forall a in [0, len(sortedReporters)) :: forall b in [0, len(sortedReporters)) :: a != b ==> sortedReporters[a].address != sortedReporters[b].address
 //@ loop 3 invariant [payout_order_is_strictly_by_address] forall a in [0, len(sortedReporters)) :: forall b in [0, len(sortedReporters)) :: a < b ==> sortedReporters[a].address < sortedReporters[b].address
+
+// ---- aggregate history lookups (C08) ----
+// Aggregates are keyed by (queryId, block time in ms). unixms(t) is t.UnixMilli(); $k is the number of stored
+// aggregates a Walk has visited so far; iterkey(N, j) the timestamp of the j-th aggregate visited by Walk N.
+// stored(q, t): an aggregate of query q with timestamp t exists.
+
+//@ define stored(q, t) = has(oracle.Aggregates, pair(q, t))
+//@ define agg_at(q, t) = oracle.Aggregates[pair(q, t)]
+
+//@ func (k Keeper).GetTimestampBefore(ctx, queryId, timestamp) (ts, err)
+//@ requires [timestamp_not_before_1970] unixms(timestamp) >= 0
+//@ ensures [found_is_stored_and_strictly_before] err == nil ==> stored(queryId, unixms(ts)) && unixms(ts) < unixms(timestamp) && ts == unixms(ts) * 1000000
+//@ ensures [found_is_the_latest_before] err == nil ==> forall t int :: stored(queryId, t) && 0 <= t && t < unixms(timestamp) ==> t <= unixms(ts)
+//@ ensures [error_only_when_nothing_before] err != nil ==> forall t int :: stored(queryId, t) && 0 < t ==> t >= unixms(timestamp)
+//@ iter 0 invariant [nothing_visited_yet] $k == 0 && mostRecent == 0
+
+//@ func (k Keeper).GetTimestampAfter(ctx, queryId, timestamp) (ts, err)
+//@ requires [timestamp_not_before_1970] unixms(timestamp) >= 0
+//@ requires [stored_timestamps_fit_int64] forall t int :: stored(queryId, t) ==> t < 9223372036854775808
+//@ ensures [found_is_stored_and_strictly_after] err == nil ==> stored(queryId, unixms(ts)) && unixms(ts) > unixms(timestamp) && ts == unixms(ts) * 1000000
+//@ ensures [found_is_the_earliest_after] err == nil ==> forall t int :: stored(queryId, t) && t > unixms(timestamp) && t < 18446744073709551616 ==> t >= unixms(ts)
+//@ ensures [error_only_when_nothing_after] err != nil ==> forall t int :: stored(queryId, t) && t < 18446744073709551616 ==> t <= unixms(timestamp)
+//@ iter 0 invariant [nothing_visited_yet] $k == 0 && mostRecent == 0
+
+//@ func (k Keeper).GetCurrentAggregateReport(ctx, queryId) (aggregate, timestamp, err)
+//@ requires [stored_timestamps_fit_int64] forall t int :: stored(queryId, t) ==> t < 9223372036854775808
+//@ ensures [found_is_stored] err == nil ==> aggregate != nil && stored(queryId, unixms(timestamp)) && deref(aggregate) == agg_at(queryId, unixms(timestamp)) && timestamp == unixms(timestamp) * 1000000
+//@ ensures [found_is_the_latest] err == nil ==> forall t int :: stored(queryId, t) && 0 <= t && t < 18446744073709551616 ==> t <= unixms(timestamp)
+//@ ensures [error_only_when_no_aggregate] err != nil ==> forall t int :: 0 <= t && t < 18446744073709551616 ==> !stored(queryId, t)
+//@ iter 0 invariant [nothing_visited_yet] $k == 0 && aggregate == nil
+
+//@ func (k Keeper).GetAggregateBefore(ctx, queryId, timestampBefore) (aggregate, timestamp, err)
+//@ requires [timestamp_not_before_1970] unixms(timestampBefore) >= 0
+//@ ensures [found_is_stored_unflagged_and_strictly_before] err == nil ==> aggregate != nil && stored(queryId, unixms(timestamp)) && unixms(timestamp) < unixms(timestampBefore) && !agg_at(queryId, unixms(timestamp)).Flagged && deref(aggregate) == agg_at(queryId, unixms(timestamp)) && timestamp == unixms(timestamp) * 1000000
+//@ ensures [everything_later_and_before_is_flagged] err == nil ==> forall t int :: stored(queryId, t) && unixms(timestamp) < t && t < unixms(timestampBefore) ==> agg_at(queryId, t).Flagged
+//@ ensures [error_only_when_all_before_are_flagged] err != nil ==> forall t int :: stored(queryId, t) && 0 <= t && t < unixms(timestampBefore) ==> agg_at(queryId, t).Flagged
+//@ iter 0 invariant [visited_are_flagged] mostRecent == nil && forall j in [0, $k) :: agg_at(queryId, iterkey(0, j)).Flagged
+
+//@ func (k Keeper).GetAggregateByIndex(ctx, queryId, index) (aggregate, timestamp, err)
+//@ requires [stored_timestamps_fit_int64] forall t int :: stored(queryId, t) ==> t < 9223372036854775808
+//@ ensures [found_is_the_index_th_in_time_order] err == nil ==> aggregate != nil && iterk(0) == index && unixms(timestamp) == iterkey(0, index) && stored(queryId, iterkey(0, index)) && deref(aggregate) == agg_at(queryId, iterkey(0, index))
+//@ ensures [error_only_when_fewer_aggregates] err != nil ==> !iterstopped(0) && iterk(0) <= index
+//@ iter 0 invariant [counting_visited] currentIndex == $k && aggregate == nil && $k <= index
